@@ -98,9 +98,10 @@ Proof.
 Qed.
 
 (* ================= the schedule conditions of the racing theorems are necessary ================= *)
-(* Each witness violates exactly ONE of the four conditions (the other three hold along the whole schedule) and
-   ends in a store that is not linked.  4a and 4d need a node that is stalled for longer than the retry timeout;
-   4b and 4c do NOT: they are races of the unchanged code between nodes that all run at full speed. *)
+(* Each witness (4a, 4b, 4c', 4d) violates exactly ONE of the four conditions (the other three hold along the whole
+   schedule) and loses an acknowledged change or ends in a store that is not linked.  4a, 4c' and 4d need a node that
+   is stalled while other nodes complete whole operations; 4b does NOT: it is a race of the unchanged code between
+   nodes that all run at full speed.  4c is the race that the repair cd27b43 of DeleteConfig's finalize removed. *)
 
 (* 4a. no_giveup_while_alive: the stalled creator of section 2 *)
 Theorem racing_needs_no_giveup_while_alive :
@@ -152,25 +153,55 @@ Proof.
   intros o [<-|[<-|[]]] _; eauto.
 Qed.
 
-(* 4c. no_overlap_with_finalize -- GENUINE DEFECT, no stalled node, no timer at all (every step runs with the
-   timer NOT expired).  Node 1 deletes db1: registry marked, config document deleted.  Node 2 creates db1: it finds
-   the marker and no config document, so the database "does not exist"; it writes its registry entry and its
-   config document and is acknowledged.  Node 1's finalize re-reads the registry and removes whatever entry db1
-   has (removeDatabase is unconditional): the acknowledged create is left as an orphan config document without a
-   registry entry; no node loads it, and the next access to db1 deletes it. *)
+(* 4c. DeleteConfig's finalize BEFORE the repair cd27b43 -- GENUINE DEFECT (fixed), no stalled node, no timer at all
+   (every step runs with the timer NOT expired).  Node 1 deletes db1: registry marked, config document deleted.
+   Node 2 creates db1: it finds the marker and no config document, so the database "does not exist"; it writes its
+   registry entry and its config document and is acknowledged.  Node 1's finalize re-reads the registry and -- in the
+   old code, run_old -- removes whatever entry db1 has (removeDatabase was unconditional): the acknowledged create is
+   left as an orphan config document without a registry entry; no node loads it, and the next access to db1 deletes
+   it.  The schedule satisfies ALL FOUR conditions of the racing theorems (a create may overlap with the finalize of
+   a delete): with the repaired finalize (run) the theorems apply and the create survives. *)
 Definition del_fin_ops : list opk := [OInsert 1 1 [1]; ODelete 1; OInsert 1 2 [2]; OLoad].
 Definition del_fin_evs : list event :=
   let P := fun i => Step i false 0 in
-  [P 0; P 0; P 0; P 0; P 1; P 1; P 1; P 1; P 2; P 2; P 2; P 2; P 1; P 1; P 3; P 3; P 3]%nat.
+  [P 0; P 0; P 0; P 0; P 1; P 1; P 1; P 1; P 2; P 2; P 2; P 2; P 1; P 1; P 3; P 3; P 3; P 3]%nat.
 
 Theorem acked_lost_to_delete_finalize :
-  no_giveup_while_alive del_fin_ops del_fin_evs = true /\ no_stale_giveup del_fin_ops del_fin_evs = true /\
-  no_overlap_with_finalize del_fin_ops del_fin_evs = false /\ prompt_rollback del_fin_ops del_fin_evs = true /\
-  map result_of (w_nodes (run del_fin_ops del_fin_evs)) = [Some ROk; Some ROk; Some ROk; Some (RLoaded [])] /\
-  aget (regc (w_st (run del_fin_ops del_fin_evs))) 1 = None /\
-  (exists c, aget (s_cfg (w_st (run del_fin_ops del_fin_evs))) 1 = Some (c, CF (1,2) [2])) /\
-  ~ linked (aget (regc (w_st (run del_fin_ops del_fin_evs))) 1) (aget (s_cfg (w_st (run del_fin_ops del_fin_evs))) 1).
-Proof. repeat split; try (vm_compute; reflexivity). - vm_compute. eexists. reflexivity. - vm_compute. exact (fun H => H). Qed.
+  race_hyps del_fin_ops del_fin_evs = true /\
+  (* the code before the repair *)
+  map result_of (w_nodes (run_old del_fin_ops del_fin_evs)) = [Some ROk; Some ROk; Some ROk; Some (RLoaded [])] /\
+  aget (regc (w_st (run_old del_fin_ops del_fin_evs))) 1 = None /\
+  (exists c, aget (s_cfg (w_st (run_old del_fin_ops del_fin_evs))) 1 = Some (c, CF (1,2) [2])) /\
+  ~ linked (aget (regc (w_st (run_old del_fin_ops del_fin_evs))) 1) (aget (s_cfg (w_st (run_old del_fin_ops del_fin_evs))) 1) /\
+  (* the repaired code *)
+  map result_of (w_nodes (run del_fin_ops del_fin_evs)) =
+    [Some ROk; Some ROk; Some ROk; Some (RLoaded [(1, CF (1,2) [2])])] /\
+  steady (w_st (run del_fin_ops del_fin_evs)) 1.
+Proof.
+  repeat split; try (vm_compute; reflexivity).
+  - vm_compute. eexists. reflexivity.
+  - vm_compute. exact (fun H => H).
+  - vm_compute. do 3 eexists. repeat split.
+Qed.
+
+(* 4c'. no_overlap_with_finalize is still needed (a timing assumption now): an updater that is stalled between its
+   config write and its finalize while the database is deleted, created again with the SAME version string, and an
+   update of the new database is in flight: the stalled finalize finds a previous version with the version it
+   recorded and removes it -- the in-flight update loses its roll-back information and the entry no longer links to
+   the config document.  (No timer: every step runs with the timer not expired.) *)
+Definition fin_aba_ops : list opk := [OInsert 1 1 [1]; OUpdate 1 2 [1]; ODelete 1; OInsert 1 1 [1]; OUpdate 1 3 [1]].
+Definition fin_aba_evs : list event :=
+  let P := fun i => Step i false 0 in
+  [P 0; P 0; P 0; P 0; P 1; P 1; P 1; P 1; P 2; P 2; P 2; P 2; P 2; P 2; P 3; P 3; P 3; P 3; P 4; P 4; P 4; P 1; P 1]%nat.
+
+Theorem racing_needs_no_overlap_with_finalize :
+  no_giveup_while_alive fin_aba_ops fin_aba_evs = true /\ no_stale_giveup fin_aba_ops fin_aba_evs = true /\
+  no_overlap_with_finalize fin_aba_ops fin_aba_evs = false /\ prompt_rollback fin_aba_ops fin_aba_evs = true /\
+  ~ linked (aget (regc (w_st (run fin_aba_ops fin_aba_evs))) 1) (aget (s_cfg (w_st (run fin_aba_ops fin_aba_evs))) 1).
+Proof.
+  repeat split; try (vm_compute; reflexivity). vm_compute.
+  intros [_ [H|[[H _]|[H _]]]]; discriminate.
+Qed.
 
 (* 4d. prompt_rollback: a loader that decided to roll back a crashed update, but writes its fence only after the
    database has been rolled back by another loader, deleted (the deleter crashes), and a creator has given up
@@ -191,12 +222,13 @@ Proof.
   intros [_ [H|[[H _]|[H _]]]]; discriminate.
 Qed.
 
-(* the unconditional racing statements are false, also when no_giveup_while_alive is assumed *)
+(* the unconditional racing statements are false, also when the two conditions that concern give-ups and roll-backs
+   are assumed *)
 Theorem version_linkage_racing_needs_all_hyps :
   ~ (forall ops evs d, no_giveup_while_alive ops evs = true -> prompt_rollback ops evs = true ->
        linked (aget (regc (w_st (run ops evs))) d) (aget (s_cfg (w_st (run ops evs))) d)).
 Proof.
-  intros H. destruct acked_lost_to_delete_finalize as (A & _ & _ & D & _ & _ & _ & N). exact (N (H _ _ 1 A D)).
+  intros H. destruct racing_needs_no_overlap_with_finalize as (A & _ & _ & D & N). exact (N (H _ _ 1 A D)).
 Qed.
 
 (* ================= node-local apply: convergence needs [compatible] ================= *)
